@@ -32,6 +32,11 @@ def generate(rng, tier):
     n = 260 if tier == "quick" else 6000
     cases = []
     for _ in range(n):
+        if rng.random() < 0.12:      # hidden fields of just_once rows read again in continued runs
+            r, feats = S.stream_once_hidden(rng)
+            k = rng.choice([2, 3, 4])
+            cases.append({"recipe": r, "reps": k, "ks": S.random_cuts(rng, k), "features": feats})
+            continue
         r, feats = S.gen_recipe(rng, W)
         if rng.random() < 0.3 and factor_hidden_into_macro(rng, r):
             feats = sorted(set(feats) | {"hidden_field_from_macro"})
@@ -59,7 +64,7 @@ def factor_hidden_into_macro(rng, recipe):
 
 
 # ------------------------------------------------------------------ renaming (metamorphic)
-REN = {"__H": "HX", "__h0": "hx0", "__": "hx1", "__-r": "hx2", "__ t": "hx3", "__-s": "HX2"}
+REN = {"__H": "HX", "__h0": "hx0", "__": "hx1", "__-r": "hx2", "__ t": "hx3", "__-s": "HX2", "__p": "hx4"}
 BACK = {v: k for k, v in REN.items()}
 
 
@@ -132,12 +137,40 @@ def strip_renamed(rows):
                     x = x.replace(vis, BACK[vis])
                 return ["str", x]
             return v
-        out.append([t, [[k, back(v)] for k, v in fs if k not in ("hx0", "hx1", "hx2", "hx3")]])
+        out.append([t, [[k, back(v)] for k, v in fs if k not in ("hx0", "hx1", "hx2", "hx3", "hx4")]])
     return out
 
 
 # ------------------------------------------------------------------ artefact scanners
+def with_update_keys(recipe):
+    """the same recipe with `update_key: <a visible field>` on every template that has one
+    (upsert steps of the CCI mapping, the _sf_update_key column)"""
+    r = copy.deepcopy(recipe)
+    n = 0
+    for t in S.walk_templates(r):
+        own = t["own_fields"] if t.get("include") else t["fields"]
+        vis = [f for f, d in own if not f.startswith("__") and f.replace("_", "a").isalnum()]
+        if vis and not t["table"].startswith("__"):
+            t["update_key"] = vis[0]
+            n += 1
+    return r if n else None
+
+
 def scan_artefacts(recipe, reps):
+    out = _scan_artefacts(recipe, reps)
+    if "error" not in out:
+        uk = with_update_keys(recipe)
+        if uk is not None:
+            out2 = _scan_artefacts(uk, reps)
+            if "error" in out2:      # update_key adds constraints of its own: not this property's business
+                out["update_key_run"] = ["(failed: %s)" % out2["error"]]
+            else:
+                for k, v in out2.items():
+                    out[k + "+update_key"] = v
+    return out
+
+
+def _scan_artefacts(recipe, reps):
     """Run the real output streams and return {artefact: [identifiers]} or {"error": ...}."""
     from snowfakery.api import generate_data, SnowfakeryApplication
     from snowfakery.data_generator_runtime import StoppingCriteria
@@ -226,7 +259,25 @@ def scan_artefacts(recipe, reps):
         shutil.rmtree(d, ignore_errors=True)
 
 
+def run_chain(recipe, ks):
+    """the runs of a continuation chain; obs['ok'] = all rows, obs['runs'] = rows per run"""
+    runs, cont = [], None
+    for i, k in enumerate(ks):
+        o = S.run_recipe(recipe, reps=k, continuation=cont, want_continuation=(i < len(ks) - 1))
+        cont = o.get("cont")
+        if "ok" not in o:
+            return {"err": o["err"], "msg": o.get("msg", ""), "runs": runs}
+        runs.append(o["ok"])
+    return {"ok": [row for r in runs for row in r], "runs": runs}
+
+
 def run_impl(case):
+    if case.get("ks"):
+        obs = run_chain(case["recipe"], case["ks"])
+        if "ok" in obs:
+            ren = run_chain(rename_hidden(case["recipe"]), case["ks"])
+            obs["renamed"] = ren.get("ok") if "ok" in ren else {"err": ren["err"], "msg": ren.get("msg", "")[:150]}
+        return obs
     obs = S.run_recipe(case["recipe"], reps=case["reps"])
     if "ok" in obs:
         obs["artefacts"] = scan_artefacts(case["recipe"], case["reps"])
@@ -237,6 +288,14 @@ def run_impl(case):
 
 
 def coq_case(case, obs):
+    if case.get("ks"):
+        if "ok" in obs:
+            if not all(S.comparable(r) for r in obs["runs"]):
+                return None
+            exp = "(Ok " + C.clist(S.rows_coq(r) for r in obs["runs"]) + ")"
+        else:
+            exp = f"(Err {C.cerr(obs['err'])})"
+        return f"CHist PNames {S.recipe_coq(case['recipe'])} {C.clist(C.cnat(k) for k in case['ks'])} {exp}"
     slim = {"ok": obs["ok"]} if "ok" in obs else {"err": obs["err"]}
     return S.proj_case_coq("PNames", case["recipe"], case["reps"], slim)
 
